@@ -60,7 +60,7 @@ def run(ctx):
     max_areas = 4 if ctx.quick else 6
     # (TLC's coverage mode runs out of memory on the recursive operators of Persist.tla; vacuity is read off the dump instead)
     mc = tlc.run("Persist_MC", persist.mc_config(max_areas), ctx.workdir, dump=True, timeout=3000, heap="3g")
-    ctx.model(mc, f"Persist_MC pipeline-ordered RecordSM states over 3 universes, <= {max_areas} areas: the expected extract of every region is "
+    ctx.model(mc, f"Persist_MC pipeline-ordered RecordSM states over 4 universes, <= {max_areas} areas: the expected extract of every region is "
                   "well-formed, base-preserving, one component and accepted by the extract relation")
     control = tlc.run("Persist_MC", persist.mc_config(3, faithful=False, invariants=["ShiftPreservesBases"], stutter=False), ctx.workdir,
                       timeout=1200, heap="2g", tag="_neg")
@@ -103,8 +103,9 @@ def run(ctx):
     for sample in samples:
         ctx.sample(sample, limit=6)
     ctx.exhaustive = True
-    ctx.rule = (f"every state with regions of Persist_MC (three universes as in C10: first / later regions, regions touching either record end, "
-                f"an origin-spanning region holding an origin-spanning gene and a non-spanning protocluster in front of the origin, regions with "
+    ctx.rule = (f"every state with regions of Persist_MC (four universes as in C10: first / later regions, regions touching either record end, "
+                f"an origin-spanning region holding an origin-spanning gene and a non-spanning protocluster in front of the origin, an origin-spanning "
+                f"region holding genes in several exons with the origin inside an intron (both strands) or cutting an exon, regions with "
                 f"several candidates and subregions, prepeptides, codon_start genes; <= {max_areas} areas, ascending / descending insertion, optional "
                 f"late gene) is built as a real record and every region written with Region.write_to_genbank, parsed and loaded again; plus seeded "
                 f"random universes in pipeline order; non-trivial = the region spans the origin or is not the first region of its record")
